@@ -14,6 +14,7 @@ import CE.Chars.Chars
 import CE.Rules.Spec
 import CE.Rules.Measure
 import CE.Cte.ArrFmt
+import CE.Cte.Lit
 /-
   Line-protocol driver: executes the model's definitions on the operations the Go
   harness ran on the implementation.  Input line:  kind \t id \t op \t arg... \t => \t expected
@@ -301,8 +302,54 @@ def cteArrParse (args : List String) : String :=
         | none => "ERR"
   | _ => "BADINPUT"
 
+/-- LIT.NUM spelling → the value the reference semantics gives the literal -/
+def litNum (args : List String) : String :=
+  match args with
+  | [s] => match Cte.Lit.value s with | some v => v.text | none => "NOTLIT"
+  | _ => "BADINPUT"
+
+/-- LIT.ELEM kind suffix spelling → OK bits (ints) / OK value (floats) / ERR (does not fit) -/
+def litElem (args : List String) : String :=
+  match args with
+  | [k, suffix, s] =>
+    match Cte.ArrFmt.Kind.ofName k with
+    | none => "BADINPUT"
+    | some k =>
+      if k.isFloat then
+        match Cte.Lit.floatElemValue suffix s with
+        | none => "NOTLIT"
+        | some (.num neg n d) =>
+          let (p, emin, top) : Nat × Int × Nat :=
+            if k.bits = 16 then (8, -133, 128) else if k.bits = 32 then (24, -149, 128) else (53, -1074, 1024)
+          if Cte.Lit.representable p emin top n d then "OK " ++ (Cte.Lit.Val.num neg n d).text
+          else if n / d ≥ 2 ^ top then "ERR"
+          else "UNMODELLED"     -- inexact spelling: rounding is not part of the property
+        | some v => "OK " ++ v.text
+      else
+        match Cte.Lit.intElemValue suffix s with
+        | none => "NOTLIT"
+        | some v => match Cte.Lit.intElemBits k.signed k.bits v with
+          | some b => s!"OK {b}"
+          | none => "ERR"
+  | _ => "BADINPUT"
+
+/-- LIT.STR hex(utf-8 of the string body) → OK hex(bytes the literal spells) | ERR -/
+def litStr (args : List String) : String :=
+  match args with
+  | [h] =>
+    match Hex.decode h with
+    | none => "BADINPUT"
+    | some bs =>
+      match String.fromUTF8? (ByteArray.mk bs.toArray) with
+      | none => "BADINPUT"
+      | some body =>
+        match Cte.Lit.strBytes body with
+        | some out => "OK " ++ Hex.encode (out.map (fun n => n.toUInt8))
+        | none => "ERR"
+  | _ => "BADINPUT"
+
 def ops : List (String × (List String → String)) :=
-  [("CBE.ENC", cbeEnc), ("CBE.DEC", cbeDec), ("CANON.EQ", canonEq), ("RULES", rulesOp), ("WF.REL", wfRel), ("FWD.EQ", fwdEq), ("MEASURE", measureOp), ("CBE.MINLEN", minLenOp), ("API.DETECT", apiDetect), ("API.VERSION", apiVersion), ("READER.ALL", readerAll), ("READER.FAULT", readerFault), ("TREE.EQ", treeEq), ("ARR.TOLE", arrToLE), ("ARR.FROMLE", arrFromLE), ("CONV", convOp), ("CTE.ARRFMT", cteArrFmt), ("CTE.ARRPARSE", cteArrParse)]
+  [("CBE.ENC", cbeEnc), ("CBE.DEC", cbeDec), ("CANON.EQ", canonEq), ("RULES", rulesOp), ("WF.REL", wfRel), ("FWD.EQ", fwdEq), ("MEASURE", measureOp), ("CBE.MINLEN", minLenOp), ("API.DETECT", apiDetect), ("API.VERSION", apiVersion), ("READER.ALL", readerAll), ("READER.FAULT", readerFault), ("TREE.EQ", treeEq), ("ARR.TOLE", arrToLE), ("ARR.FROMLE", arrFromLE), ("CONV", convOp), ("CTE.ARRFMT", cteArrFmt), ("CTE.ARRPARSE", cteArrParse), ("LIT.NUM", litNum), ("LIT.ELEM", litElem), ("LIT.STR", litStr)]
 
 def splitArrow : List String → List String × String
   | [] => ([], "")
